@@ -391,3 +391,14 @@ def dec_float(v):
     if isinstance(v, list):
         return tuple(dec_float(x) for x in v)
     return num(v)
+
+
+def accum_wfsa(desc, R="Float"):
+    """the machine Python actually builds from a descriptor: add_I/add_F/add_arc accumulate repeated keys"""
+    c = canon_wfsa(desc, R)
+    import json as _j
+
+    def w(v):
+        return v if isinstance(v, bool) else frac_str(v)
+    return {"start": [[_j.loads(k), w(v)] for k, v in c["start"]], "stop": [[_j.loads(k), w(v)] for k, v in c["stop"]],
+            "arcs": [_j.loads(k) + [w(v)] for k, v in c["arcs"]]}
